@@ -20,6 +20,12 @@ type Clause struct {
 	Line  int
 }
 
+// Hint restricts the quantified assumptions used for one obligation to the listed sources.
+type Hint struct {
+	Label string
+	From  []string
+}
+
 type LemmaUse struct {
 	Anchor string // "entry", "return", "call:Name#k"
 	Name   string
@@ -47,6 +53,7 @@ type Contract struct {
 	Lemmas     []*LemmaUse
 	Uses       []*LemmaUse // axioms/lemmas assumed in universally quantified form for the whole unit
 	Asserts    []*Clause // Label = anchor
+	Hints      []*Hint   // by <obligation label>: source, source, ...
 	Witness    []*Clause // definitions of skolem functions used in ensures (assumed at return; the function symbol must be fresh)
 	Bounds     []string
 	Split      *Expr
@@ -97,7 +104,7 @@ type SpecFile struct {
 var clauseKeywords = map[string]bool{
 	"func": true, "property": true, "returns": true, "requires": true, "ensures": true, "invariant": true,
 	"let": true, "modifies": true, "nopanic": true, "inline": true, "trusted": true, "pure": true, "lemma": true,
-	"assert": true, "witness": true, "uses": true, "split": true, "define": true, "family": true, "deflemma": true, "axiom": true, "end": true, "bound": true, "note": true,
+	"assert": true, "by": true, "witness": true, "uses": true, "split": true, "define": true, "family": true, "deflemma": true, "axiom": true, "end": true, "bound": true, "note": true,
 }
 
 func ParseSpecFile(path string) (*SpecFile, error) {
@@ -411,6 +418,19 @@ func ParseSpecFile(path string) (*SpecFile, error) {
 					return nil, perr(err)
 				}
 				cur.Witness = append(cur.Witness, &Clause{Label: lab, Expr: e, Src: rest, Line: rc.line})
+			case "by":
+				// by <label>: src1, src2, ...
+				i := strings.Index(rc.text, ":")
+				if i < 0 {
+					return nil, perr(fmt.Errorf("by: expected 'label: sources'"))
+				}
+				h := &Hint{Label: strings.TrimSpace(rc.text[:i])}
+				for _, f := range strings.Split(rc.text[i+1:], ",") {
+					if f = strings.TrimSpace(f); f != "" {
+						h.From = append(h.From, f)
+					}
+				}
+				cur.Hints = append(cur.Hints, h)
 			case "assert":
 				t := rc.text
 				anchor := "return"
@@ -547,7 +567,7 @@ func lex(s string) ([]lexTok, error) {
 			toks = append(toks, lexTok{"id", s[i:j], i})
 			i = j
 		default:
-			ops := []string{"<==>", "==>", "::", "==", "!=", "<=", ">=", "&&", "||", ":=", "<", ">", "+", "-", "*", "/", "%", "!", "(", ")", "[", "]", ",", ".", "?", ":"}
+			ops := []string{"<==>", "==>", "::", "==", "!=", "<=", ">=", "&&", "||", ":=", "<", ">", "+", "-", "*", "/", "%", "!", "(", ")", "[", "]", "{", "}", ",", ".", "?", ":"}
 			matched := false
 			for _, op := range ops {
 				if strings.HasPrefix(s[i:], op) {
@@ -617,6 +637,26 @@ func (p *parser) parseIff() (*Expr, error) {
 		if srt.kind != "id" {
 			return nil, fmt.Errorf("forall: expected sort")
 		}
+		var trig []*Expr
+		if p.isOp("{") {
+			p.next()
+			for {
+				te, err := p.parseIff()
+				if err != nil {
+					return nil, err
+				}
+				trig = append(trig, te)
+				if p.isOp(",") {
+					p.next()
+					continue
+				}
+				break
+			}
+			if !p.isOp("}") {
+				return nil, fmt.Errorf("forall: expected '}' after triggers")
+			}
+			p.next()
+		}
 		if !p.isOp("::") {
 			return nil, fmt.Errorf("forall: expected '::'")
 		}
@@ -625,7 +665,7 @@ func (p *parser) parseIff() (*Expr, error) {
 		if err != nil {
 			return nil, err
 		}
-		q := &Expr{Kind: "forall", Name: v.text, Str: srt.text, Args: []*Expr{body}}
+		q := &Expr{Kind: "forall", Name: v.text, Str: srt.text, Args: append([]*Expr{body}, trig...)}
 		if isExists {
 			// exists x. b  ==  !(forall x. !b)
 			q.Args = []*Expr{{Kind: "unop", Name: "!", Args: []*Expr{body}}}
